@@ -503,7 +503,13 @@ func (p *pkg) constsOut(prefix string, w *strings.Builder) {
 }
 
 func write(leandir, name, body string) {
-	hdr := "/- GENERATED by tools/extract from /repo's working tree on every run. Do not edit. -/\nnamespace VGen\n\n"
+	imp := ""
+	for strings.HasPrefix(body, "--IMPORT ") {
+		nl := strings.Index(body, "\n")
+		imp += "import " + body[len("--IMPORT "):nl] + "\n"
+		body = body[nl+1:]
+	}
+	hdr := imp + "/- GENERATED by tools/extract from /repo's working tree on every run. Do not edit. -/\nnamespace VGen\n\n"
 	if err := os.WriteFile(filepath.Join(leandir, "VGen", name+".lean"), []byte(hdr+body+"end VGen\n"), 0o644); err != nil {
 		fail("%v", err)
 	}
